@@ -125,7 +125,7 @@ pub enum CliCase {
     Encode { alist: String, punct: Option<String>, input: Vec<u8>, fifo_chunks: Option<Vec<usize>> },
     BadFile { sub: String, fault: FileFault, alist: String },
     BadArg { args: Vec<String> },
-    Ber { alist: String, args: Vec<String>, workers: usize, strategy: String, clock: String, seeds: [u64; 3] },
+    Ber { alist: String, args: Vec<String>, workers: usize, strategy: String, clock: String, seeds: [u64; 3], expect_err: bool },
 }
 
 fn mn_json(c: &MnConfig) -> Value {
@@ -145,8 +145,8 @@ impl CliCase {
             CliCase::Encode { alist, punct, input, fifo_chunks } => json!({"kind": "encode", "alist": alist, "puncturing": punct, "input": input, "fifo_chunks": fifo_chunks}),
             CliCase::BadFile { sub, fault, alist } => json!({"kind": "bad-file", "sub": sub, "fault": format!("{:?}", fault), "alist": alist}),
             CliCase::BadArg { args } => json!({"kind": "bad-arg", "args": args}),
-            CliCase::Ber { alist, args, workers, strategy, clock, seeds } => json!({"kind": "ber", "alist": alist, "args": args, "workers": workers, "strategy": strategy, "clock": clock,
-                "seeds": seeds.iter().map(|s| s.to_string()).collect::<Vec<_>>()}),
+            CliCase::Ber { alist, args, workers, strategy, clock, seeds, expect_err } => json!({"kind": "ber", "alist": alist, "args": args, "workers": workers, "strategy": strategy, "clock": clock,
+                "seeds": seeds.iter().map(|s| s.to_string()).collect::<Vec<_>>(), "expect_err": expect_err}),
         }
     }
     pub fn from_json(v: &Value) -> Option<CliCase> {
@@ -210,6 +210,7 @@ impl CliCase {
                     strategy: s("strategy")?,
                     clock: s("clock")?,
                     seeds: [*sd.first()?, *sd.get(1)?, *sd.get(2)?],
+                    expect_err: v["expect_err"].as_bool().unwrap_or(false),
                 }
             }
             _ => return None,
@@ -551,7 +552,13 @@ fn eval_in(case: &CliCase, stats: &mut Counters, bin: &Path, dir: &Path) -> Opti
             if k == 0 {
                 return None;
             }
-            let pat: Option<Vec<bool>> = punct.as_ref().map(|p| p.split(',').map(|t| t == "1").collect());
+            let pat_parsed: Option<Result<Vec<bool>, ()>> = punct.as_ref().map(|p| own_parse_pattern(p));
+            let malformed = matches!(pat_parsed, Some(Err(())));
+            let pat: Option<Vec<bool>> = pat_parsed.and_then(|r| r.ok());
+            if pat.as_ref().is_some_and(|p| !p.iter().any(|&b| b)) {
+                stats.inc("skipped/pattern keeps no block");
+                return None;
+            }
             let mut args = sv(&["encode", "code.alist", "in.bin", "out.bin"]);
             if let Some(p) = punct {
                 args.extend(["--puncturing".to_string(), p.clone()]);
@@ -589,14 +596,18 @@ fn eval_in(case: &CliCase, stats: &mut Counters, bin: &Path, dir: &Path) -> Opti
                 }
             };
             let out = run_prog(bin, &args, dir, 60);
-            if out.timed_out {
-                // unblock a writer stuck in open()
-                let _ = std::fs::OpenOptions::new().read(true).custom_flags_nonblock().open(&inpath);
-            }
             if let Some(w) = writer {
+                // the tool has exited: open the read side ourselves (non-blocking) so that a writer
+                // still blocked in open() or write() gets through, whatever the tool did
+                let unblock = std::fs::OpenOptions::new().read(true).custom_flags_nonblock().open(&inpath);
                 let _ = w.join();
+                drop(unblock);
             }
             let what = format!("encode (k = {}, n = {}, puncturing {:?}, {} input bytes{})", k, m.c, punct, input.len(), if fifo_chunks.is_some() { ", FIFO" } else { "" });
+            if malformed {
+                stats.inc("malformed puncturing pattern rejected");
+                return expect_error_exit(&out, &what);
+            }
             if let Some(p) = &pat {
                 if m.c % p.len() != 0 {
                     // pattern does not fit: an error is expected as soon as a word is encoded
@@ -700,13 +711,26 @@ fn eval_in(case: &CliCase, stats: &mut Counters, bin: &Path, dir: &Path) -> Opti
             stats.inc("invalid argument rejected");
             expect_error_exit(&out, &format!("{:?}", args))
         }
-        CliCase::Ber { alist, args, workers, strategy, clock, seeds } => {
+        CliCase::Ber { alist, args, workers, strategy, clock, seeds, expect_err } => {
             std::fs::write(dir.join("code.alist"), alist).ok()?;
             let casefile = dir.join("case.json");
             std::fs::write(&casefile, case.to_json().to_string()).ok()?;
             let me = std::env::current_exe().ok()?;
             let out = run_prog(&me, &["child".into(), "cli-ber".into(), casefile.to_string_lossy().into_owned()], dir, 120);
             let _ = (workers, strategy, clock, seeds);
+            if *expect_err {
+                // block sizes that do not fit: the subcommand must end with an error, not hang or panic
+                stats.inc("faults_fired/ber with a block size that does not fit the codeword");
+                let sim: Value = out.stderr.lines().find_map(|l| l.strip_prefix("SIMRESULT ")).and_then(|j| serde_json::from_str(j).ok()).unwrap_or(Value::Null);
+                if out.timed_out || sim.is_null() {
+                    return Some(Violation::new("ber-crash", format!("ber {:?}: child ended without a result ({})", args, out.status)));
+                }
+                return match sim["kind"].as_str() {
+                    Some("err") => None,
+                    Some(k) => Some(Violation::new(&format!("ber-{}", k), format!("ber {:?} with a block size that does not fit: expected an error return, got {}: {}", args, k, sim["detail"].as_str().unwrap_or("")))),
+                    None => Some(Violation::new("ber-crash", "no kind".to_string())),
+                };
+            }
             check_ber_outputs(alist, args, dir, &out, stats)
         }
     }
@@ -751,6 +775,7 @@ pub fn child_cli_ber(casefile: &str) -> ! {
     };
     let mut argv = vec!["ldpc-toolbox".to_string()];
     argv.extend(args);
+    let argv_for_ref = argv.clone();
     let out = dstsim::run(cfg, move || match Args::try_parse_from(&argv) {
         Ok(a) => a.run().map_err(|e| format!("run: {}", e)),
         Err(e) => Err(format!("parse: {}", e)),
@@ -763,11 +788,102 @@ pub fn child_cli_ber(casefile: &str) -> ! {
         RunResult::RootPanicked(m) => ("root-panicked", m.clone()),
     };
     let panicked: Vec<String> = out.tasks.iter().filter_map(|t| if let dstsim::TaskEnd::Panicked(m) = &t.end { Some(format!("task {}: {}", t.id, m)) } else { None }).collect();
+    if kind == "ok" && workers == 1 {
+        // With one worker the frames the collector consumes are a prefix of that worker's
+        // stream, whatever the schedule; the worker's random stream is keyed by its task id.
+        // So the library, called with the parameters the arguments *mean*, must reproduce the
+        // counts the tool wrote (a dummy task takes the place of the progress thread).
+        if let Some(rows) = reference_ber_rows(&argv_for_ref, seeds, &strategy, &clock) {
+            eprintln!("REFSTATS {}", serde_json::to_string(&rows).unwrap());
+        }
+    }
     eprintln!(
         "SIMRESULT {}",
         json!({"kind": kind, "detail": detail, "steps": out.steps, "leaked": out.leaked, "hash": format!("{:x}", out.event_hash), "tasks": out.tasks.len(), "panicked": panicked, "sim_time_ns": out.clock_ns})
     );
     std::process::exit(0)
+}
+
+/// Run BerTestBuilder in-process with the meaning of the arguments; rows of
+/// [frames, bit errs, frame errs, false decodes, BER, FER, avg iter, avg corr] as printed,
+/// first in the default view (outer code if configured) then in the LDPC-only view.
+fn reference_ber_rows(argv: &[String], seeds: [u64; 3], strategy: &str, clock: &str) -> Option<Vec<Vec<Vec<String>>>> {
+    use ldpc_toolbox::decoder::factory::DecoderImplementation;
+    use ldpc_toolbox::simulation::factory::{BerTestBuilder, Modulation};
+    let h = SparseMatrix::from_alist(&std::fs::read_to_string("code.alist").ok()?).ok()?;
+    let k = h.num_cols() - h.num_rows();
+    let min: f64 = arg_val(argv, "--min-ebn0")?.parse().ok()?;
+    let max: f64 = arg_val(argv, "--max-ebn0")?.parse().ok()?;
+    let step: f64 = arg_val(argv, "--step-ebn0")?.parse().ok()?;
+    let np = ((max - min) / step).floor() as usize + 1;
+    let ebn0s: Vec<f32> = (0..np).map(|i| (min + i as f64 * step) as f32).collect();
+    let dec: DecoderImplementation = arg_val(argv, "--decoder").unwrap_or("Phif64").parse().ok()?;
+    let modulation = match arg_val(argv, "--modulation") {
+        Some("PSK8") => Modulation::Psk8,
+        _ => Modulation::Bpsk,
+    };
+    let pat: Option<Vec<bool>> = arg_val(argv, "--puncturing").and_then(|p| own_parse_pattern(p).ok());
+    let il: Option<isize> = arg_val(argv, "--interleaving").and_then(|s| s.parse().ok());
+    let target: u64 = arg_val(argv, "--frame-errors").unwrap_or("100").parse().ok()?;
+    let max_iter: usize = arg_val(argv, "--max-iter").unwrap_or("100").parse().ok()?;
+    let bch: u64 = arg_val(argv, "--bch-max-errors").unwrap_or("0").parse().ok()?;
+    let cfg = dstsim::Config {
+        sched_seed: seeds[0] ^ 0x5555,
+        clock_seed: seeds[1],
+        entropy_seed: seeds[2],
+        strategy: Strategy::parse(strategy).unwrap_or(Strategy::Uniform),
+        clock: ClockProfile::parse(clock).unwrap_or(ClockProfile::Coarse),
+        num_cpus: 1,
+        max_steps: 3_000_000,
+        replay: None,
+        stop_rule: true,
+        stop_delay_max: 500,
+        stop_bound: 300_000,
+        par_tasks: 1,
+        keep_events: false,
+    };
+    let out = dstsim::run(cfg, move || {
+        // stands where the tool's progress thread stands in the task numbering
+        let d = ldpc_toolbox::verif_seam::std::thread::spawn(|| ());
+        let _ = d.join();
+        let test = BerTestBuilder {
+            h,
+            decoder_implementation: dec,
+            modulation,
+            puncturing_pattern: pat.as_deref(),
+            interleaving_columns: il,
+            max_frame_errors: target,
+            max_iterations: max_iter,
+            ebn0s_db: &ebn0s,
+            reporter: None,
+            bch_max_errors: bch,
+        }
+        .build()
+        .map_err(|e| e.to_string())?;
+        test.run().map_err(|e| e.to_string())
+    });
+    let RunResult::Done(Ok(stats)) = out.result else { return None };
+    let row = |frames: u64, be: u64, fe: u64, fd: u64, ti: u64, ci: u64| -> Vec<String> {
+        vec![
+            frames.to_string(),
+            be.to_string(),
+            fe.to_string(),
+            fd.to_string(),
+            format!("{:7.2e}", be as f64 / (k as f64 * frames as f64)).trim().to_string(),
+            format!("{:7.2e}", fe as f64 / frames as f64).trim().to_string(),
+            format!("{:8.1}", ti as f64 / frames as f64).trim().to_string(),
+            format!("{:8.1}", ci as f64 / (frames - fe) as f64).trim().to_string(),
+        ]
+    };
+    let ldpc_view: Vec<Vec<String>> = stats.iter().map(|s| row(s.num_frames, s.ldpc.bit_errors, s.ldpc.frame_errors, s.false_decodes, s.total_iterations, s.ldpc.correct_iterations)).collect();
+    let default_view: Vec<Vec<String>> = stats
+        .iter()
+        .map(|s| match &s.bch {
+            Some(b) => row(s.num_frames, b.bit_errors, b.frame_errors, s.false_decodes, s.total_iterations, b.correct_iterations),
+            None => row(s.num_frames, s.ldpc.bit_errors, s.ldpc.frame_errors, s.false_decodes, s.total_iterations, s.ldpc.correct_iterations),
+        })
+        .collect();
+    Some(vec![default_view, ldpc_view])
 }
 
 fn arg_val<'a>(args: &'a [String], name: &str) -> Option<&'a str> {
@@ -822,11 +938,12 @@ fn check_ber_outputs(alist: &str, args: &[String], dir: &Path, out: &ProcOut, st
     let target: u64 = arg_val(args, "--frame-errors")?.parse().ok()?;
     let bch: u64 = arg_val(args, "--bch-max-errors").and_then(|s| s.parse().ok()).unwrap_or(0);
     let want_points = ((max - min) / step).floor() as usize + 1;
-    let pat: Option<Vec<bool>> = arg_val(args, "--puncturing").map(|p| p.split(',').map(|t| t == "1").collect());
+    let pat: Option<Vec<bool>> = arg_val(args, "--puncturing").and_then(|p| own_parse_pattern(p).ok());
     let n_tx = match &pat {
         None => n_cw,
         Some(p) => n_cw / p.len() * p.iter().filter(|&&b| b).count(),
     };
+    let refrows: Option<Vec<Vec<Vec<String>>>> = out.stderr.lines().find_map(|l| l.strip_prefix("REFSTATS ")).and_then(|j| serde_json::from_str(j).ok());
     let mut files = vec![("out.txt", false)];
     if bch > 0 && arg_val(args, "--output-file-ldpc").is_some() {
         files.push(("out_ldpc.txt", true));
@@ -884,6 +1001,19 @@ fn check_ber_outputs(alist: &str, args: &[String], dir: &Path, out: &ProcOut, st
             if r[6] != want_fer.trim() {
                 return Some(Violation::new("ber-output", format!("{}: line {}: FER {} but {} / {} = {}", fname, i, r[6], frame_errs, frames, want_fer.trim())));
             }
+            if let Some(rr) = &refrows {
+                let view = &rr[usize::from(ldpc_only)];
+                stats.inc("ber line compared with the library run on the same random streams");
+                match view.get(i) {
+                    Some(want) if want[..] == r[1..9] => {}
+                    other => {
+                        return Some(Violation::new(
+                            "ber-mapping",
+                            format!("{}: line {}: the tool wrote {:?} but BerTestBuilder called with what the arguments mean ({:?}) gives {:?} on the same random streams (single worker)", fname, i, &r[1..9], args, other),
+                        ));
+                    }
+                }
+            }
         }
     }
     None
@@ -898,23 +1028,35 @@ fn gen_sampled(seed: u64, i: u64) -> CliCase {
     match i % 8 {
         0 => CliCase::Peg { rows: 1 + g.below(12) as usize, cols: 1 + g.below(20) as usize, wc: 1 + g.below(4) as usize, seed: if g.chance(1, 2) { g.below(100) } else { g.next() }, girth: g.chance(1, 3) },
         1 => {
-            let nrows = 2 + g.below(9) as usize;
-            let ncols = 2 + g.below(15) as usize;
-            let wc = 1 + g.below(3.min(nrows as u64)) as usize;
-            let need = (ncols * wc).div_ceil(nrows);
-            let conf = MnConfig {
-                nrows,
-                ncols,
-                wr: *g.pick(&[need.saturating_sub(1).max(1), need, need, need + 1, need + 3]),
-                wc,
-                backtrack_cols: g.below(3) as usize,
-                backtrack_trials: *g.pick(&[0usize, 1, 5]),
-                min_girth: *g.pick(&[None, None, Some(4), Some(6)]),
-                girth_trials: *g.pick(&[0usize, 2, 10]),
-                fill_policy: if g.chance(1, 2) { FillPolicy::Uniform } else { FillPolicy::Random },
-            };
+            // several candidates are drawn and the one whose result depends on the most
+            // arguments is kept, so that a mis-mapped argument cannot hide behind a
+            // configuration in which it does not matter
+            let mut best: Option<(usize, MnConfig, u64)> = None;
+            for _ in 0..10 {
+                let nrows = 2 + g.below(11) as usize;
+                let ncols = 2 + g.below(20) as usize;
+                let wc = 1 + g.below(3.min(nrows as u64)) as usize;
+                let need = (ncols * wc).div_ceil(nrows);
+                let conf = MnConfig {
+                    nrows,
+                    ncols,
+                    wr: *g.pick(&[need.saturating_sub(1).max(1), need, need, need, need + 1, need + 3]),
+                    wc,
+                    backtrack_cols: *g.pick(&[0usize, 1, 2, 3, 7, 40]),
+                    backtrack_trials: *g.pick(&[0usize, 1, 2, 5, 11, 30]),
+                    min_girth: *g.pick(&[None, None, Some(4), Some(5), Some(6), Some(7)]),
+                    girth_trials: *g.pick(&[0usize, 2, 10, 25]),
+                    fill_policy: if g.chance(1, 2) { FillPolicy::Uniform } else { FillPolicy::Random },
+                };
+                let seed = g.below(10_000);
+                let score = mn_sensitivity(&conf, seed);
+                if best.as_ref().is_none_or(|b| score > b.0) {
+                    best = Some((score, conf, seed));
+                }
+            }
+            let (_, conf, seed) = best.unwrap();
             let search = if g.chance(1, 2) { Some(*g.pick(&[1u64, 4, 16, 64])) } else { None };
-            CliCase::MackayNeal { conf, seed: g.below(10_000), search }
+            CliCase::MackayNeal { conf, seed, search }
         }
         2 => {
             // systematic: full rank incl. square and late-pivot, and rank-deficient inputs
@@ -971,7 +1113,9 @@ fn gen_sampled(seed: u64, i: u64) -> CliCase {
             let tail = if g.chance(1, 2) { Tail::Staircase } else { Tail::Invertible };
             let m = random_code(&mut g, k, r, tail, 1);
             let n = k + r;
-            let punct = if g.chance(1, 2) {
+            let punct = if g.chance(1, 10) {
+                Some(g.pick(&["", "1,0,", ",", "1,,0", " 1,0", "1,2", "a", "1;0", "10", "1,0,1,", "1, 0", "01", ",1"]).to_string())
+            } else if g.chance(1, 2) {
                 let ds: Vec<usize> = (2..=n).filter(|d| n % d == 0).collect();
                 if ds.is_empty() || g.chance(1, 10) {
                     if g.chance(1, 2) { Some("1,1,1,1,1,1,1,0".to_string()) } else { None }
@@ -1030,6 +1174,25 @@ fn gen_sampled(seed: u64, i: u64) -> CliCase {
     }
 }
 
+/// Number of single-argument perturbations (swaps and shifts of the numeric options) that
+/// change what `run(seed)` returns.
+fn mn_sensitivity(c: &MnConfig, seed: u64) -> usize {
+    let base = c.run(seed).map_err(|e| e.to_string());
+    let mut variants: Vec<(MnConfig, u64)> = Vec::new();
+    variants.push((MnConfig { backtrack_cols: c.backtrack_trials, backtrack_trials: c.backtrack_cols, ..c.clone() }, seed));
+    variants.push((MnConfig { backtrack_trials: c.backtrack_cols, ..c.clone() }, seed));
+    variants.push((MnConfig { backtrack_cols: c.backtrack_trials, ..c.clone() }, seed));
+    variants.push((MnConfig { girth_trials: c.backtrack_trials, backtrack_trials: c.girth_trials, ..c.clone() }, seed));
+    variants.push((MnConfig { girth_trials: 0, ..c.clone() }, seed));
+    variants.push((MnConfig { backtrack_trials: 0, ..c.clone() }, seed));
+    variants.push((MnConfig { backtrack_cols: 0, ..c.clone() }, seed));
+    variants.push((MnConfig { min_girth: None, ..c.clone() }, seed));
+    variants.push((MnConfig { fill_policy: if c.fill_policy == FillPolicy::Uniform { FillPolicy::Random } else { FillPolicy::Uniform }, ..c.clone() }, seed));
+    variants.push((MnConfig { wr: c.wr + 1, ..c.clone() }, seed));
+    variants.push((c.clone(), seed + 1));
+    variants.iter().filter(|(v, s)| v.run(*s).map_err(|e| e.to_string()) != base).count()
+}
+
 fn gen_ber(g: &mut Stream) -> CliCase {
     let names = crate::hist::all_decoder_names();
     let n = *g.pick(&[6usize, 8, 9, 12, 12, 15, 18]);
@@ -1048,7 +1211,13 @@ fn gen_ber(g: &mut Stream) -> CliCase {
     args.extend(["--decoder".to_string(), g.pick(&names).clone()]);
     args.extend(["--output-file".to_string(), "out.txt".to_string()]);
     let mut l = n;
-    if g.chance(1, 3) {
+    let fault = if g.chance(18, 100) { 1 + g.below(4) } else { 0 };
+    if fault == 1 {
+        // a pattern whose length does not divide the codeword
+        let nd: Vec<usize> = (2..=n + 2).filter(|p| n % p != 0).collect();
+        let p = *g.pick(&nd);
+        args.extend(["--puncturing".to_string(), (0..p).map(|i| if i == 0 || g.chance(2, 3) { "1" } else { "0" }).collect::<Vec<_>>().join(",")]);
+    } else if fault != 4 && g.chance(1, 3) {
         let ds: Vec<usize> = (2..=n).filter(|d| n % d == 0).collect();
         if !ds.is_empty() {
             let p = *g.pick(&ds);
@@ -1058,12 +1227,26 @@ fn gen_ber(g: &mut Stream) -> CliCase {
             args.extend(["--puncturing".to_string(), v.iter().map(|&x| if x { "1" } else { "0" }).collect::<Vec<_>>().join(",")]);
         }
     }
-    if g.chance(1, 3) {
+    if fault == 2 {
+        let nd: Vec<usize> = (2..=l + 2).filter(|c| l % c != 0).collect();
+        let c = *g.pick(&nd) as i64;
+        args.push(format!("--interleaving={}", if g.chance(1, 2) { c } else { -c }));
+    } else if fault != 1 && g.chance(1, 3) {
         let ds: Vec<usize> = (1..=l).filter(|d| l % d == 0).collect();
         let c = *g.pick(&ds) as i64;
         args.push(format!("--interleaving={}", if g.chance(1, 2) { c } else { -c }));
     }
-    if l % 3 == 0 && g.chance(1, 3) {
+    let mut fault = fault;
+    if fault == 4 {
+        args.extend(["--puncturing".to_string(), g.pick(&["", "1,0,", ",", "1,,0", " 1,0", "1,2", "a", "10", "1, 0"]).to_string()]);
+    }
+    if fault == 3 {
+        if l % 3 != 0 {
+            args.extend(["--modulation".to_string(), "PSK8".to_string()]);
+        } else {
+            fault = 0;
+        }
+    } else if fault == 0 && l % 3 == 0 && g.chance(1, 3) {
         args.extend(["--modulation".to_string(), "PSK8".to_string()]);
     }
     if g.chance(1, 4) && k > 2 {
@@ -1073,10 +1256,11 @@ fn gen_ber(g: &mut Stream) -> CliCase {
     CliCase::Ber {
         alist: m.to_alist(),
         args,
-        workers: *g.pick(&[1usize, 2, 2, 3, 4]),
+        workers: *g.pick(&[1usize, 1, 1, 2, 2, 3, 4]),
         strategy: crate::c13::pick_strategy(g).name(),
         clock: g.pick(&["fine", "coarse", "coarse", "jumpy"]).to_string(),
         seeds: [g.next(), g.next(), g.next()],
+        expect_err: fault != 0,
     }
 }
 
@@ -1143,7 +1327,7 @@ pub fn main(opts: &Opts) -> ! {
         harness_error(&format!("{:?} not built", bin_path()));
     }
     let thorough = opts.tier == Tier::Thorough;
-    let n_sampled = if thorough { (40_000.0 * opts.scale) as u64 } else { (1600.0 * opts.scale) as u64 };
+    let n_sampled = if thorough { (40_000.0 * opts.scale) as u64 } else { (2400.0 * opts.scale) as u64 };
     let mut cases: Vec<CliCase> = exhaustive_cases(thorough);
     let n_exh = cases.len();
     // encode: every input length 0..=3k+2 for one fixed code, with and without puncturing
